@@ -27,6 +27,10 @@ type pskConn struct {
 
 	writeS20 cipher.Stream
 	readS20  cipher.Stream
+	// writeErr is the error of a failed write. Once set, the key stream has
+	// advanced past bytes the remote may never receive, so every later write
+	// would be decrypted with the wrong part of the key stream.
+	writeErr error
 }
 
 func (c *pskConn) Read(out []byte) (int, error) {
@@ -47,6 +51,9 @@ func (c *pskConn) Read(out []byte) (int, error) {
 }
 
 func (c *pskConn) Write(in []byte) (int, error) {
+	if c.writeErr != nil {
+		return 0, c.writeErr
+	}
 	if c.writeS20 == nil {
 		nonce := make([]byte, 24)
 		_, err := rand.Read(nonce)
@@ -65,7 +72,11 @@ func (c *pskConn) Write(in []byte) (int, error) {
 
 	c.writeS20.XORKeyStream(out, in) // encrypt
 
-	return c.Conn.Write(out) // send
+	n, err := c.Conn.Write(out) // send
+	if err != nil {
+		c.writeErr = err
+	}
+	return n, err
 }
 
 var _ net.Conn = (*pskConn)(nil)
